@@ -36,6 +36,7 @@ type Solver struct {
 	Log     io.Writer
 	dead    bool
 	axiomsSent int
+	Errors    int
 }
 
 func solverArgv(name string, timeoutMs int) []string {
@@ -46,6 +47,8 @@ func solverArgv(name string, timeoutMs int) []string {
 		return []string{"z3-new", "-in", fmt.Sprintf("-t:%d", timeoutMs)}
 	case "cvc5":
 		return []string{"cvc5", "--incremental", "--produce-models", "--lang=smt2", fmt.Sprintf("--tlimit-per=%d", timeoutMs)}
+	case "cvc5-iand":
+		return []string{"cvc5", "--incremental", "--produce-models", "--lang=smt2", "--solve-bv-as-int=iand", fmt.Sprintf("--tlimit-per=%d", timeoutMs)}
 	}
 	panic("unknown solver " + name)
 }
@@ -66,7 +69,7 @@ func NewSolver(name string, st *Store, timeoutMs int) (*Solver, error) {
 		return nil, err
 	}
 	s := &Solver{Name: name, cmd: cmd, in: in, out: bufio.NewReaderSize(outp, 1<<20), emitted: map[int32]bool{}, emittedUF: map[string]bool{}, st: st, timeoutMs: timeoutMs}
-	if name == "cvc5" {
+	if strings.HasPrefix(name, "cvc5") {
 		s.send("(set-logic ALL)\n")
 	}
 	s.send("(set-option :produce-models true)\n")
@@ -164,7 +167,7 @@ func (s *Solver) Check(conds []*Term, wantModel bool, vars []*Term) (SatResult, 
 	for _, c := range conds {
 		fmt.Fprintf(&b, "(assert %s)\n", c.ref())
 	}
-	b.WriteString("(check-sat)\n")
+	b.WriteString("(check-sat)\n(echo \"DONE-CHECK\")\n")
 	s.send(b.String())
 	res := s.readResult()
 	var m Model
@@ -186,6 +189,8 @@ func (s *Solver) Check(conds []*Term, wantModel bool, vars []*Term) (SatResult, 
 }
 
 func (s *Solver) readResult() SatResult {
+	res := Unknown
+	sawErr := false
 	for {
 		line, err := s.out.ReadString('\n')
 		if err != nil {
@@ -193,27 +198,24 @@ func (s *Solver) readResult() SatResult {
 			return Unknown
 		}
 		line = strings.TrimSpace(line)
-		if s.Log != nil {
+		if s.Log != nil && line != "" {
 			fmt.Fprintf(s.Log, "; <- %s\n", line)
 		}
 		switch {
+		case strings.Contains(line, "DONE-CHECK"):
+			if sawErr {
+				return Unknown
+			}
+			return res
 		case line == "sat":
-			return Sat
+			res = Sat
 		case line == "unsat":
-			return Unsat
+			res = Unsat
 		case line == "unknown" || line == "timeout":
-			return Unknown
+			res = Unknown
 		case strings.HasPrefix(line, "(error"):
-			// inconclusive; keep reading until the check-sat answer arrives
-			// (the error may precede it). Mark and continue.
-			res := s.readResult()
-			_ = res
-			return Unknown
-		case line == "":
-			continue
-		default:
-			// unexpected output
-			continue
+			sawErr = true
+			s.Errors++
 		}
 	}
 }
@@ -232,12 +234,27 @@ func (s *Solver) getValues(vars []*Term) Model {
 		for _, v := range vars[i:j] {
 			b.WriteString(v.ref() + " ")
 		}
-		b.WriteString("))\n")
+		b.WriteString("))\n(echo \"DONE-VALUES\")\n")
 		s.send(b.String())
-		txt := s.readSexp()
+		txt := s.readUntil("DONE-VALUES")
 		parseValues(txt, vars[i:j], m)
 	}
 	return m
+}
+
+func (s *Solver) readUntil(marker string) string {
+	var b strings.Builder
+	for {
+		line, err := s.out.ReadString('\n')
+		if err != nil {
+			s.dead = true
+			return b.String()
+		}
+		if strings.Contains(line, marker) {
+			return b.String()
+		}
+		b.WriteString(line)
+	}
 }
 
 // readSexp reads one balanced s-expression from the solver.
